@@ -47,7 +47,7 @@ def error_sites(body):
 
 def v1(rep, F):
     r = rep.rule("V1", "every private validate_* rule function of an impl MTnnn is called exactly once from "
-                       "that type's validate_network_rules, and nothing else is", floor=95)
+                       "that type's validate_network_rules, and nothing else is", floor=78)
     r2 = rep.rule("V1n", "per-type count of wired rule functions is not below the count confirmed on the "
                          "pinned tree (deleting a rule together with its call is seen)", floor=30)
     confirmed = {"MT101": 10, "MT103": 13, "MT104": 14, "MT107": 10, "MT110": 2, "MT192": 1, "MT196": 1,
